@@ -3,6 +3,7 @@ import Complgen.Model.Quote
 import Complgen.Model.Pipeline
 import Complgen.Model.Parse
 import Complgen.Model.Dot
+import Complgen.Model.DotEmit
 import Complgen.Model.BashRt
 import Complgen.Model.BashRtCalls
 import Complgen.Cert.Search
@@ -70,6 +71,31 @@ word-adjacent positions not starting with `#`): decided once per request -/
 def layoutAdmissible (_sd _n : Nat) : Bool :=
   layMenu.all (fun x => Parse.layoutOK false x.toList) &&
   layMenuW.all (fun x => Parse.layoutOK false x.toList && x.toList.head? != some '#' && !x.isEmpty)
+
+/-! ### automata with their labels on the wire (for the model of `DFA::to_dot`):
+`start;acc,acc;from.i.to~from.i.to;inp|inp|…` with `inp` = the fields of `Inp.text` joined by `_` -/
+
+def parseInp (s : String) : Option Inp :=
+  match s.splitOn "_" with
+  | ["L", t, d, l] => do some (.lit (← Hex.decode t) (← Hex.decodeOpt d) (← l.toNat?))
+  | ["W", k, l] => do some (.sub (← k.toNat?) (← l.toNat?))
+  | ["C", c, "0", l] => do some (.cmd (← Hex.decode c) (← l.toNat?))
+  | ["C", c, "1", l] => do some (.compadd (← Hex.decode c) (← l.toNat?))
+  | ["X"] => some .star
+  | _ => none
+
+def parseAutoWire (s : String) : Option Auto :=
+  match s.splitOn ";" with
+  | [st, acc, tr, ins] => do
+    let start ← st.toNat?
+    let acc ← ((acc.splitOn ",").filter (fun x => x ≠ "" && x ≠ "-")).mapM (·.toNat?)
+    let trans ← ((tr.splitOn "~").filter (fun x => x ≠ "" && x ≠ "-")).mapM fun t =>
+      match t.splitOn "." with
+      | [a, i, b] => do some (← a.toNat?, ← i.toNat?, ← b.toNat?)
+      | _ => none
+    let inputs ← ((ins.splitOn "|").filter (fun x => x ≠ "" && x ≠ "-")).mapM parseInp
+    some { start, trans, acc, inputs }
+  | _ => none
 
 /-! ### keyed automata on the wire: `start;acc,acc,…;from,key,to~from,key,to~…` (no blanks) -/
 
@@ -318,6 +344,18 @@ def handle (line : String) : String :=
       let W := Spec.Complete.worldOf g sh (parseOutTable out)
       "ok " ++ " ; ".intercalate ((cls.splitOn ";").map (completeOne W))
     | _, _ => "bad-op"
+  | ["dotemit", base, main, subs] =>
+    -- the model of `DFA::to_dot` (Model/DotEmit.lean; `emitDfa_parse`: its output always parses to the
+    -- expected graph) on the automaton of the real library: the bytes must be those of the real `--dfa` file
+    match base.toNat?, parseAutoWire main,
+        (if subs == "-" then some [] else (subs.splitOn "&").mapM parseAutoWire) with
+    | some b, some m, some ss =>
+      let d : Dfa := ⟨m, ss⟩
+      let scope := (m :: ss).all fun a => a.inputs.all fun
+        | .lit _ (some dsc) _ => Dot.debugInScope dsc
+        | _ => true
+      s!"ok {Hex.encode (Dot.emitDfa d b)} {if scope then 1 else 0}"
+    | _, _, _ => "bad-op"
   | ["dot", h] =>
     match Hex.decode h with
     | some src => Dot.dumpText src
